@@ -29,12 +29,15 @@ func (s *sloCounter) Failed() { s.fail++ }
 
 func (consumersSuite) Gen(r *rand.Rand, i int) Case {
 	n := 1 + r.Intn(4)
-	width := []int64{20, 100, 1000}[r.Intn(3)]
+	// a third of the cases count in milliseconds instead of nanoseconds: the event stream reports latencies in whole
+	// milliseconds, so only there do its latency fields say anything
+	unit := []int64{1, 1, 1_000_000}[r.Intn(3)]
+	width := []int64{20, 100, 1000}[r.Intn(3)] * unit
 	dur := int64(n) * width
 	pn := 1 + r.Intn(3)
 	pdur := int64(pn) * width * 2
-	slo := []int64{1, 5, 50}[r.Intn(3)]
-	to := []int64{0, 5, 50}[r.Intn(3)]
+	slo := []int64{1, 5, 50}[r.Intn(3)] * unit
+	to := []int64{0, 5, 50}[r.Intn(3)] * unit
 	c := Case{Header: fmt.Sprintf("consumers n=%d dur=%d pn=%d pdur=%d psize=%d slo=%d to=%d mc=%d fbmc=%d", n, dur, pn, pdur, 1+r.Intn(4), slo, to,
 		[]int64{-1, 0, 10, 10}[r.Intn(4)], []int64{-1, 0, 10, 10}[r.Intn(4)])}
 	if r.Intn(8) == 0 {
@@ -51,7 +54,7 @@ func (consumersSuite) Gen(r *rand.Rand, i int) Case {
 		case x < 60:
 			run := pick(r, "nil", "nil", fmt.Sprintf("e%d", id), fmt.Sprintf("e%d", id), fmt.Sprintf("bad%d", id), "ctxerr")
 			id++
-			radv := []int64{0, 1, slo - 2, slo - 1, slo, to - 2, to - 1, to, 7}[r.Intn(9)]
+			radv := []int64{0, unit, slo - 2, slo - 1, slo, to - 2, to - 1, to, 7*unit + unit/2}[r.Intn(9)]
 			if radv < 0 {
 				radv = 0
 			}
@@ -86,6 +89,23 @@ func (consumersSuite) Gen(r *rand.Rand, i int) Case {
 		}
 	}
 	c.Ops = append(c.Ops, "stats", "slo")
+	if r.Intn(5) == 0 {
+		// the substitute clock runs far BEHIND the wall clock (all other cases: far ahead of it): a consumer that reads
+		// the wall clock anywhere rolls every window out.  The call's context then expires at once in real time, so
+		// no function reports the context's state, and every reconfiguration keeps the TimeKeeper.  The expvar view is
+		// not read either: faststats' argument-less readers (RollingPercentile.Var -> Snapshot()) are DOCUMENTED to read
+		// the wall clock, so RunStats.Var rolls the latency window to the wall clock's time — outside every listed
+		// property (see DESIGN §9)
+		c.Header += " base=past"
+		c.Tags = append(c.Tags, "clock-behind-wall-clock")
+		for k, op := range c.Ops {
+			op = strings.Replace(op, "run=ctxerr", "run=nil", 1)
+			if op == "var" {
+				op = "stats"
+			}
+			c.Ops[k] = strings.Replace(op, "partial=1", "partial=0", 1)
+		}
+	}
 	return c
 }
 
@@ -126,6 +146,10 @@ func ratStr(f float64) string {
 func int64s(l ...int64) string { return fmtInts(l) }
 
 func (consumersSuite) Run(h map[string]string, ops []string) []string {
+	if h["base"] == "past" {
+		defer func(b time.Time) { clockBase = b }(clockBase)
+		clockBase = time.Date(2001, 1, 1, 0, 0, 0, 0, time.UTC)
+	}
 	constNow := func() time.Time { return clockBase }
 	sf := &rolling.StatFactory{
 		RunConfig: rolling.RunStatsConfig{Now: constNow, RollingStatsDuration: time.Duration(getI(h, "dur", 10_000_000_000)), RollingStatsNumBuckets: int(getI(h, "n", 10)),
@@ -252,7 +276,17 @@ func (consumersSuite) Run(h map[string]string, ops []string) []string {
 				e.clk.frozen = true
 				defer func() { e.clk.frozen = false }()
 				es := &metriceventstream.MetricEventStream{Manager: mgr, TickDuration: time.Millisecond}
-				go func() { _ = es.Start() }()
+				// Close does not wait for Start: the op does (a tick still being computed after the clock is unfrozen would
+				// move the substitute clock under the next op)
+				startDone := make(chan struct{})
+				go func() { _ = es.Start(); close(startDone) }()
+				closeStream := func() {
+					_ = es.Close()
+					select {
+					case <-startDone:
+					case <-time.After(5 * time.Second):
+					}
+				}
 				ctx, cancel := context.WithCancel(context.Background())
 				req := httptest.NewRequest(http.MethodGet, "/hystrix.stream", nil).WithContext(ctx)
 				streamOps++
@@ -276,7 +310,7 @@ func (consumersSuite) Run(h map[string]string, ops []string) []string {
 							if json.Unmarshal([]byte(body), &probe) != nil {
 								cancel()
 								<-done
-								_ = es.Close()
+								closeStream()
 								return "stream-bad-json"
 							}
 							if _, seen := recs[probe.Name]; !seen {
@@ -289,7 +323,7 @@ func (consumersSuite) Run(h map[string]string, ops []string) []string {
 				}
 				cancel()
 				<-done
-				_ = es.Close()
+				closeStream()
 				data := recs["c"]
 				if data == nil {
 					if len(recs) == 0 {
